@@ -1156,6 +1156,53 @@ fn kmeans_t<T: Num>(c: &mut Case, sc: &Scen) {
     let outs = |m: &KMeans<T>| Ok(fv(&m.predict(&q).map_err(es)?));
     // random initialisation: no refit clause
     drive(c, sc, "KMeans", &fit, &outs, Some(&|a, b| a == b), false, false);
+    // the seeding is random: one fit is one schedule. A small data set with a tight group, a straggler, a lone point and
+    // a pair (clusters can run empty during the iteration) is fitted repeatedly; every fitted model has to come back
+    // from JSON and label fresh rows like the original
+    let dim = c.rng.us(1, 2);
+    let centre = c.rng.uni(-8.0, 8.0);
+    let mut rows: Vec<Vec<f64>> = Vec::new();
+    let mut put = |base: f64, spread: f64, m: usize, rng: &mut Rng| {
+        for _ in 0..m {
+            rows.push((0..dim).map(|_| r32(sc.f32, base + spread * rng.normal())).collect());
+        }
+    };
+    put(centre, 0.3, 3, &mut c.rng);
+    put(centre - 5.0, 0.1, 1, &mut c.rng);
+    put(centre + 5.5, 0.1, 1, &mut c.rng);
+    put(centre + 7.7, 0.1, 2, &mut c.rng);
+    let xs = Mat::from_rows(&rows);
+    let xd: DM<T> = to_dense(&xs);
+    let qd: DM<T> = to_dense(&Mat::from_fn(6, dim, |i, _| centre - 12.0 + 4.5 * i as f64));
+    let sg = format!("KMeans/repeated-fits/{}", width::<T>());
+    for _ in 0..20 {
+        let m = match c.must("KMeans::fit(repeated)", || KMeans::<T>::fit(&xd, KMeansParameters::default().with_k(3))) {
+            Some(Ok(m)) => m,
+            _ => break,
+        };
+        let js = match serde_json::to_string(&m) {
+            Ok(s) => s,
+            Err(e) => {
+                c.check("json.serialize-ok", false, &sg, || format!("{}", e));
+                break;
+            }
+        };
+        let back: Result<KMeans<T>, _> = serde_json::from_str(&js);
+        let ok = match &back {
+            Ok(m2) => match (m.predict(&qd), m2.predict(&qd)) {
+                (Ok(a), Ok(b)) => fv(&a) == fv(&b),
+                _ => false,
+            },
+            Err(_) => false,
+        };
+        if !c.check("json.restorable(repeated fits)", ok, &sg, || format!("rows {:?}: the fitted model serialises to {} and {}", rows_json(&xs), trunc(&js, 300), match &back { Ok(_) => "its restored copy labels fresh rows differently".to_string(), Err(e) => format!("cannot be restored: {}", e) })) {
+            break;
+        }
+    }
+}
+
+fn rows_json(m: &Mat) -> Vec<Vec<f64>> {
+    (0..m.r).map(|i| m.row(i)).collect()
 }
 
 fn dbscan_d<T: Num, D: Distance<Vec<T>, T> + Serialize + DeserializeOwned>(c: &mut Case, sc: &Scen, d: D, dname: &str) {
